@@ -12,6 +12,7 @@ import (
 	"os"
 	"os/exec"
 	"reflect"
+	"regexp"
 	"sort"
 	"strconv"
 	"strings"
@@ -516,6 +517,10 @@ func c03Entry(entry string, data string) (class string, detail sx.S) {
 			4: {kind: "const", v: sx.L("list", sx.L("node", "2"), "nil")}}}
 		root := ggql.NewRoot(&execSchemaObj{w: w, q: 1, m: -1})
 		_ = root.ParseString("type Query { f1: T20 f2(a1: Int!, a2: [String], a3: T40): Int } type T20 { f3: String f1: T20 f4: [T20] } input T40 { a1: Int! a2: [T40] }")
+		// request parsing and printing of whatever the reader returned, then resolution
+		if exe, _ := root.ParseExecutableString(data); exe != nil {
+			_ = exe.String()
+		}
 		res := root.ResolveString(data, "", map[string]interface{}{"v1": 1, "v2": nil, "v3": []interface{}{"x", 2}})
 		var b bytes.Buffer
 		_ = ggql.WriteJSONValue(&b, res, 2)
@@ -594,7 +599,37 @@ var c03Seeds = map[string][]string{
 	"exe": {`query Q($v1: Int = 2, $v2: [String]) { f1 { f3 f1 { ...F } } f2(a1: $v1, a2: ["s"], a3: {a1: 1, a2: [{a1: 2}]}) ... on Query { f1 { f3 } } }
 fragment F on T20 { f3 f1 { f3 } }`, `{ f1 { f3 f4 { f3 } } }`, `mutation M { f1 { f3 } }`, `{ __schema { types { name } } __type(name: "T20") { fields { name } } }`,
 		`query($a:){f1{f3}}`, `{f1{...F}} fragment F on T20 {f3 ...F}`, `{f1{...F}} fragment F on T20 {f3 f1 { ...G }} fragment G on T20 { f1 { ...F } }`,
-		`{ f2(a1: 1, a2: $v3) }`, `{ f2 }`, `{ f2(a1: null) }`, `{ f2(a1: "s") }`, `{ f2(a1: 4294967297) }`},
+		`{ f2(a1: 1, a2: $v3) }`, `{ f2 }`, `{ f2(a1: null) }`, `{ f2(a1: "s") }`, `{ f2(a1: 4294967297) }`,
+		`query($a: [Int!]! = [1]) { f1 { ... on T20 @skip(if: false) { f3 } ... @include(if: true) { f3 } } }`,
+		`subscription S { f1 { f3 } }`, `{ f2(a1: [1], a2: {a: 1}, a3: E) }`, `{ f2(a1: 1, a3: {a1: 1, a2: [{a1: $v1}, null]}) }`},
+}
+
+// tokens the token-level mutator inserts
+var c03Vocab = []string{"[", "]", "[]", "{", "}", "{}", "(", ")", "()", "!", ":", "=", "|", "&", "@", "@skip(if: true)", "@d", "...", "on", "$v1", "$",
+	"type", "input", "enum", "union", "interface", "scalar", "schema", "extend", "directive", "implements", "fragment", "query", "mutation", "subscription",
+	"Int", "T20", "Query", "null", "true", "1", "-", "1e", "\"", "\"\"\"", "#", ",", "\n"}
+
+var c03TokRe = regexp.MustCompile("[A-Za-z_][A-Za-z0-9_]*|\\$[A-Za-z0-9_]*|-?[0-9][0-9.eE+-]*|\"\"\"(?s:.*?)\"\"\"|\"(?:[^\"\\\\\n]|\\\\.)*\"|\\.\\.\\.|\\s+|.")
+
+// mutateTokens deletes, duplicates, swaps and inserts whole tokens, so that the structure around
+// the change stays well formed (an empty list type, a missing type condition, a stray directive)
+func mutateTokens(r *rand.Rand, s string) string {
+	toks := c03TokRe.FindAllString(s, -1)
+	for n := 1 + r.Intn(3); n > 0 && len(toks) > 0; n-- {
+		i := r.Intn(len(toks))
+		switch r.Intn(5) {
+		case 0, 1:
+			toks = append(toks[:i], toks[i+1:]...)
+		case 2:
+			toks = append(toks[:i], append([]string{c03Vocab[r.Intn(len(c03Vocab))], " "}, toks[i:]...)...)
+		case 3:
+			toks[i] = c03Vocab[r.Intn(len(c03Vocab))]
+		default:
+			j := r.Intn(len(toks))
+			toks[i], toks[j] = toks[j], toks[i]
+		}
+	}
+	return strings.Join(toks, "")
 }
 
 func mutateBytes(r *rand.Rand, s string) string {
@@ -665,7 +700,11 @@ func c03Gen(r *rand.Rand, tier string) []Case {
 		if entry == "value" && r.Intn(3) == 0 {
 			s = safeSDL(genValue(r, 0, false))
 		}
-		add(entry, mutateBytes(r, s), false, "mutated", "nontrivial")
+		if i%2 == 0 {
+			add(entry, mutateBytes(r, s), false, "mutated", "nontrivial")
+		} else {
+			add(entry, mutateTokens(r, s), false, "token-mutated", "nontrivial")
+		}
 	}
 	// nesting bombs and long runs, in child processes (a stack overflow is fatal, not a panic)
 	depths := []int{1000, 100000}
@@ -677,6 +716,11 @@ func c03Gen(r *rand.Rand, tier string) []Case {
 		add("value", strings.Repeat("{a:", d), true, "nesting-bomb", "nontrivial")
 		add("exe", "{"+strings.Repeat("a{", d), true, "nesting-bomb", "nontrivial")
 		add("sdl", "type Query { a: "+strings.Repeat("[", d)+"Int", true, "nesting-bomb", "nontrivial")
+		// the same, closed: well-formed text whose only fault is its depth
+		add("value", strings.Repeat("[", d)+strings.Repeat("]", d), true, "nesting-bomb", "nontrivial")
+		add("value", strings.Repeat("{a:", d)+"1"+strings.Repeat("}", d), true, "nesting-bomb", "nontrivial")
+		add("exe", "{"+strings.Repeat("f1{", d)+"f3"+strings.Repeat("}", d)+"}", true, "nesting-bomb", "nontrivial")
+		add("sdl", "type Query { a: "+strings.Repeat("[", d)+"Int"+strings.Repeat("]", d)+" }", true, "nesting-bomb", "nontrivial")
 	}
 	_ = math.Pi
 	return cases
